@@ -74,6 +74,45 @@ class Exits(dict):
             self.put(k, v)
 
 
+class Recorder:
+    """Collects StopIteration sources (with the minimum net consumption before them),
+    sources swallowed by a handler, and the abstract state at raise statements."""
+
+    def __init__(self):
+        self.si = {}  # src_key -> min_before
+        self.swallowed = []  # (try_stmt, handler, src_key, min_before)
+        self.raises = {}  # id(stmt) -> (stmt, func, State)
+
+    def add_si(self, key, before):
+        self.si[key] = min(self.si[key], before) if key in self.si else before
+
+    def absorb(self, other):
+        for k, v in other.si.items():
+            self.add_si(k, v)
+        self.swallowed.extend(other.swallowed)
+        for k, v in other.raises.items():
+            if k in self.raises:
+                self.raises[k] = (v[0], v[1], self.raises[k][2].joined(v[2]))
+            else:
+                self.raises[k] = v
+
+
+def ordered_calls(e):
+    """Call nodes of an expression in evaluation order (arguments before the call)."""
+    out = []
+
+    def visit(n):
+        if isinstance(n, ast.Lambda):
+            return
+        for c in ast.iter_child_nodes(n):
+            visit(c)
+        if isinstance(n, ast.Call):
+            out.append(n)
+
+    visit(e)
+    return out
+
+
 class _FuncInfo:
     def __init__(self, f: Func, lits=()):
         # flags: non-parameter locals whose every binding is `name = True/False`
@@ -133,6 +172,7 @@ class Consumption:
                 self.callsite_of[id(cs.node)] = cs
         self.info: dict[str, _FuncInfo] = {}
         self.summary: dict[str, int] = {}
+        self.si_summary: dict[str, dict] = {}
         self.ce = ConstEval(prog)
         self._solve()
 
@@ -160,18 +200,21 @@ class Consumption:
             for f in funcs:
                 if not self.lit_names(f):
                     continue
-                ret = self.func_return_min(f)
-                if ret != self.summary[f.qualname]:
+                rec = Recorder()
+                ret = self.func_return_min(f, rec)
+                si = {} if f.is_generator else dict(rec.si)  # PEP 479: cannot leave a generator
+                if ret != self.summary[f.qualname] or si != self.si_summary.get(f.qualname):
                     self.summary[f.qualname] = ret
+                    self.si_summary[f.qualname] = si
                     changed = True
             if not changed:
                 break
 
-    def func_return_min(self, f: Func) -> int:
+    def func_return_min(self, f: Func, rec=None) -> int:
+        fi = self.finfo(f)
+        ex = self.walk(f, f.body, State({fi.init: 0}), frozenset(), rec=rec)
         if f.is_generator:
             return 0  # creating / partially consuming a generator guarantees nothing
-        fi = self.finfo(f)
-        ex = self.walk(f, f.body, State({fi.init: 0}), frozenset())
         st = Exits()
         st.put("r", ex.get("return", State()))
         st.put("r", ex.get("fall", State()))
@@ -266,14 +309,14 @@ class Consumption:
         return out
 
     # ------------------------------------------------------------ statements
-    def walk(self, f: Func, stmts, st: State, progress_vars, lits=None) -> Exits:
+    def walk(self, f: Func, stmts, st: State, progress_vars, lits=None, rec=None) -> Exits:
         lits = self.lit_names(f) if lits is None else lits
         fi = self.finfo(f)
         ex = Exits()
         for s in stmts:
             if not st:
                 break
-            st = self.stmt(f, fi, s, st, ex, progress_vars, lits)
+            st = self.stmt(f, fi, s, st, ex, progress_vars, lits, rec)
         ex.put("fall", st)
         return ex
 
@@ -346,14 +389,38 @@ class Consumption:
                         return False
         return sites > 0
 
-    def stmt(self, f, fi, s, st: State, ex: Exits, pv, lits) -> State:
+    def record_expr(self, f, e, st: State, lits, rec):
+        """Record StopIteration sources of expression e evaluated in state st."""
+        if rec is None or e is None or not st:
+            return
+        base = st.minval()
+        run = 0
+        for call in ordered_calls(e):
+            fn = call.func
+            if isinstance(fn, ast.Name) and fn.id == "next" and len(call.args) == 1 and not call.keywords and isinstance(call.args[0], ast.Name) and call.args[0].id in lits:
+                rec.add_si((f.qualname, call.lineno, call.col_offset), _addi(base, run))
+            else:
+                cs = self.callsite_of.get(id(call))
+                if cs is not None and cs.callees and cs.cls is None:
+                    passes = any(isinstance(a, ast.Name) and a.id in lits for a in call.args) or any(isinstance(k.value, ast.Name) and k.value.id in lits for k in call.keywords)
+                    if passes:
+                        for g in cs.callees:
+                            for key, rel in self.si_summary.get(g.qualname, {}).items():
+                                rec.add_si(key, _addi(_addi(base, run), rel))
+            run = _addi(run, self.call_cost(f, call, lits))
+
+    def stmt(self, f, fi, s, st: State, ex: Exits, pv, lits, rec=None) -> State:
         T = type(s)
         if T in (ast.FunctionDef, ast.AsyncFunctionDef, ast.ClassDef, ast.Pass, ast.Global, ast.Nonlocal, ast.Import, ast.ImportFrom):
             return st
         if T is ast.Return:
+            self.record_expr(f, s.value, st, lits, rec)
             ex.put("return", st.shifted(self.expr_cost(f, s.value, lits)))
             return State()
         if T is ast.Raise:
+            if rec is not None:
+                old = rec.raises.get(id(s))
+                rec.raises[id(s)] = (s, f, st if old is None else old[2].joined(st))
             ex.put("raise", st)
             return State()
         if T is ast.Break:
@@ -366,6 +433,7 @@ class Consumption:
             c = 0
             for ch in ast.iter_child_nodes(s):
                 if isinstance(ch, ast.expr):
+                    self.record_expr(f, ch, st.shifted(c), lits, rec)
                     c = _addi(c, self.expr_cost(f, ch, lits))
             st = st.shifted(c)
             if T is ast.Assign and len(s.targets) == 1 and isinstance(s.targets[0], ast.Name) and s.targets[0].id in fi.index and isinstance(s.value, ast.Constant):
@@ -383,41 +451,45 @@ class Consumption:
                 st = st.set_all(INF)
             return st
         if T is ast.If:
+            self.record_expr(f, s.test, st, lits, rec)
             st = st.shifted(self.expr_cost(f, s.test, lits))
-            a = self.walk(f, s.body, self.refine(fi, st, s.test, True), pv, lits)
-            b = self.walk(f, s.orelse, self.refine(fi, st, s.test, False), pv, lits)
+            a = self.walk(f, s.body, self.refine(fi, st, s.test, True), pv, lits, rec)
+            b = self.walk(f, s.orelse, self.refine(fi, st, s.test, False), pv, lits, rec)
             fa, fb = a.pop("fall", State()), b.pop("fall", State())
             ex.merge(a)
             ex.merge(b)
             return fa.joined(fb)
         if T in (ast.For, ast.AsyncFor, ast.While):
-            return self._loop(f, fi, s, st, ex, pv, lits)
+            return self._loop(f, fi, s, st, ex, pv, lits, rec)
         if T in (ast.With, ast.AsyncWith):
             for it in s.items:
+                self.record_expr(f, it.context_expr, st, lits, rec)
                 st = st.shifted(self.expr_cost(f, it.context_expr, lits))
-            b = self.walk(f, s.body, st, pv, lits)
+            b = self.walk(f, s.body, st, pv, lits, rec)
             fall = b.pop("fall", State())
             ex.merge(b)
             return fall
         if T is ast.Try:
-            return self._try(f, fi, s, st, ex, pv, lits)
+            return self._try(f, fi, s, st, ex, pv, lits, rec)
         if T is ast.Match:
             st = st.shifted(self.expr_cost(f, s.subject, lits))
             fall = State(st)
             for c in s.cases:
-                b = self.walk(f, c.body, st, pv, lits)
+                b = self.walk(f, c.body, st, pv, lits, rec)
                 fall = fall.joined(b.pop("fall", State()))
                 ex.merge(b)
             return fall
         return st
 
-    def _loop(self, f, fi, s, st, ex, pv, lits):
+    def _loop(self, f, fi, s, st, ex, pv, lits, rec=None):
         T = type(s)
         if T is ast.While:
+            self.record_expr(f, s.test, st, lits, rec)
             itercost = self.expr_cost(f, s.test, lits)
             pre = 0
             infinite = isinstance(s.test, ast.Constant) and bool(s.test.value)
         else:
+            self.record_expr(f, s.iter, st, lits, rec)
             pre = self.expr_cost(f, s.iter, lits)
             itercost = 1 if (isinstance(s.iter, ast.Name) and s.iter.id in lits) else 0
             infinite = False
@@ -432,7 +504,7 @@ class Consumption:
                 for x in ast.walk(s.target):
                     if isinstance(x, ast.Name) and ("@" + x.id) in fi.index:
                         start = self.assign_flag(fi, start, "@" + x.id, True)
-            body_ex = self.walk(f, s.body, start, frozenset(), lits)
+            body_ex = self.walk(f, s.body, start, frozenset(), lits, rec)
             back = body_ex.get("fall", State()).joined(body_ex.get("continue", State()))
             new_head = head.joined(back)
             if new_head == head:
@@ -447,7 +519,7 @@ class Consumption:
             zero = head.shifted(itercost if T is ast.While else 0)
             if T is ast.While:
                 zero = self.refine(fi, zero, s.test, False)
-            o = self.walk(f, s.orelse, zero, pv, lits)
+            o = self.walk(f, s.orelse, zero, pv, lits, rec)
             fall = o.pop("fall", State())
             ex.merge(o)
         fall = fall.joined(body_ex.get("break", State()))
@@ -456,8 +528,22 @@ class Consumption:
                 ex.put(k, body_ex[k])
         return fall
 
-    def _try(self, f, fi, s, st, ex, pv, lits):
-        b = self.walk(f, s.body, st, pv, lits)
+    def _try(self, f, fi, s, st, ex, pv, lits, rec=None):
+        brec = Recorder() if rec is not None else None
+        b = self.walk(f, s.body, st, pv, lits, brec)
+        if rec is not None:
+            catcher = None
+            for h in s.handlers:
+                if _handler_catches(h, "StopIteration"):
+                    catcher = h
+                    break
+            if catcher is not None:
+                swallow = not any(isinstance(x, ast.Raise) for hs_ in catcher.body for x in ast.walk(hs_))
+                if swallow:
+                    for k, v in brec.si.items():
+                        rec.swallowed.append((s, catcher, k, v, f.qualname))
+                brec.si = {}
+            rec.absorb(brec)
         fall = b.pop("fall", State())
         # handler entry: any prefix of the body may have executed
         has_neg = self._has_pushback(f, s.body, lits)
@@ -469,14 +555,14 @@ class Consumption:
             vv = NEG if has_neg else v
             hs[nk] = min(hs[nk], vv) if nk in hs else vv
         if s.orelse and fall:
-            o = self.walk(f, s.orelse, fall, pv, lits)
+            o = self.walk(f, s.orelse, fall, pv, lits, rec)
             fall = o.pop("fall", State())
             b.merge(o)
         caught_raise = b.pop("raise", State()) if s.handlers else State()
         out_fall = fall
         for h in s.handlers:
             hstart = hs.joined(caught_raise)
-            hb = self.walk(f, h.body, hstart, pv, lits)
+            hb = self.walk(f, h.body, hstart, pv, lits, rec)
             out_fall = out_fall.joined(hb.pop("fall", State()))
             b.merge(hb)
         if caught_raise and not self._catches_all(s):
@@ -513,6 +599,18 @@ class Consumption:
         rel = self.walk(f, loop.body, start, test_vars, lits)
         back = rel.get("fall", State()).joined(rel.get("continue", State()))
         return back.minval()
+
+
+def _handler_catches(h, cls):
+    t = h.type
+    if t is None:
+        return True
+    elts = t.elts if isinstance(t, ast.Tuple) else [t]
+    for e in elts:
+        nm = e.id if isinstance(e, ast.Name) else getattr(e, "attr", None)
+        if nm in (cls, "Exception", "BaseException"):
+            return True
+    return False
 
 
 # frozen exception table: (function qualname, normalised loop test) -> reason
